@@ -642,8 +642,9 @@ Definition step (c : cfg) (s : mstate) (e : event) : res :=
             crash_mode := crash_mode s; bcast := bcast s |}
   | ECrash =>
       (* the process died: what the new process reloads is whatever was last committed *)
-      Ok (with_crash (with_saved (with_limit (with_relq (with_limbo (with_pool
-            (with_stop s (stop_point s) None (stop_task s)) []) []) []) None) []) true)
+      (* (the record of completed absolute-trigger outputs is re-announced from what the database holds) *)
+      Ok (with_abs (with_crash (with_saved (with_limit (with_relq (with_limbo (with_pool
+            (with_stop s (stop_point s) None (stop_task s)) []) []) []) None) []) true) [])
   | EAdopt held hp sp stask =>
       if crash_mode s then Ok (with_stop (with_hold s held hp) sp (stop_mode s) stask) else Err 261
   | ERestore v =>
